@@ -188,17 +188,42 @@ type runResult struct {
 // panicSite returns the innermost frame inside the repository from the program counters of a
 // panicking goroutine.
 func panicSite(pcs []uintptr) string {
+	// The site of a panic is the innermost function of the repository on the stack. When the
+	// panic was raised below it, in a dependency, the package of the dependency's innermost frame is
+	// part of the site ("repoFn<-package of the dependency"): a known panic inside a third-party parser must not
+	// cover a different panic raised by the repository's own code in the same function.
 	frames := runtime.CallersFrames(pcs)
+	dep := ""
 	for {
 		f, more := frames.Next()
-		if strings.HasPrefix(f.Function, modulePath) {
-			return strings.TrimPrefix(f.Function, modulePath)
+		fn := f.Function
+		switch {
+		case strings.HasPrefix(fn, modulePath):
+			site := strings.TrimPrefix(fn, modulePath)
+			if dep != "" {
+				site += "<-" + dep
+			}
+			return site
+		case fn == "" || strings.HasPrefix(fn, "runtime.") || strings.HasPrefix(fn, "verifharness/"):
+		default:
+			if dep == "" {
+				dep = pkgOf(fn)
+			}
 		}
 		if !more {
 			break
 		}
 	}
 	return "(outside repository)"
+}
+
+// pkgOf returns the package path of a fully qualified function name.
+func pkgOf(fn string) string {
+	slash := strings.LastIndexByte(fn, '/')
+	if dot := strings.IndexByte(fn[slash+1:], '.'); dot >= 0 {
+		return fn[:slash+1+dot]
+	}
+	return fn
 }
 
 // workTree is a cached directory holding the neighbour files of one (extractor, path, fixture
